@@ -39,6 +39,12 @@ func main() {
 	wall := fs.Duration("wallcap", 0, "")
 	runs := fs.Int("runs", 0, "override the number of runs")
 	manifest := fs.String("simgen-manifest", "", "")
+	caseFile := fs.String("case", "", "")
+	dir := fs.String("dir", "", "")
+	logPath := fs.String("log", "", "")
+	mode := fs.String("mode", "work", "")
+	kill := fs.Uint64("kill", 0, "")
+	torn := fs.Bool("torn", false, "")
 	fs.Parse(os.Args[2:])
 
 	switch cmd {
@@ -78,6 +84,10 @@ func main() {
 	case "selftest":
 		self, _ := os.Executable()
 		os.Exit(harness.SelfTest(*prop, *seed, *n, self))
+	case "crash-child":
+		os.Exit(harness.CrashChild(*caseFile, *dir, *logPath, *mode, *kill, *torn))
+	case "crash-verify":
+		os.Exit(harness.CrashVerify(*caseFile, *dir, *logPath))
 	case "exec-case":
 		os.Exit(harness.ExecCaseStdin(*prop))
 	case "one":
